@@ -120,7 +120,17 @@ type obsT struct {
 	Elems []int64 `json:"elems"`
 }
 
-func (g *gen) observe() ([]obsT, [][]int64, string) {
+func (g *gen) observe() (obs []obsT, backs [][]int64, bad string) {
+	// corrupted metadata can make the library panic while it is merely being read: that is an observation too
+	defer func() {
+		if p := recover(); p != nil {
+			obs, backs, bad = nil, nil, fmt.Sprintf("panic while observing the live tensors: %v", p)
+		}
+	}()
+	return g.observe1()
+}
+
+func (g *gen) observe1() ([]obsT, [][]int64, string) {
 	var obs []obsT
 	for i, t := range g.f.Live() {
 		if g.info[i].dead {
@@ -256,6 +266,18 @@ func (g *gen) randSlices(h int) ([][]int, bool) {
 		}
 	}
 	return sl, nonnil || stepped || true
+}
+
+// safeStep: a panic of the library while the generator merely inspects its tensors (shapes, magnitudes)
+// ends the trace with an anomaly line.
+func (g *gen) safeStep() (ok bool) {
+	defer func() {
+		if p := recover(); p != nil {
+			g.emit("churn", world.Op{K: "Churn", H: 0, A: json.RawMessage("[]")}, world.ExecOut{Panic: fmt.Sprintf("while preparing the next call: %v", p)})
+			ok = false
+		}
+	}()
+	return g.step()
 }
 
 func (g *gen) step() bool {
@@ -601,7 +623,7 @@ func main() {
 		out.Write([]byte(`{"ev":"reset","op":{"k":"Reset","h":0,"a":[]},"err":0,"ret":0,"obs":[],"backs":[],"caller":0,"note":"","pool":[]}` + "\n"))
 		n := 5 + g.r.Intn(*steps)
 		for i := 0; i < n; i++ {
-			if !g.step() {
+			if !g.safeStep() {
 				break // the trace ends at the first anomaly: TLC reports it at that line
 			}
 		}
